@@ -39,6 +39,26 @@ let cmd_queue toks =
     go ops; out "E"; dump !q; Buffer.contents buf
   | _ -> failwith "queue: bad header"
 
+(* ---- C01: one propensity object: prop <mode> <V> <t> <x list> <p list> <propspec> ---- *)
+let cmd_prop toks =
+  let (m, r) = pop toks in let (v, r) = pop_fl r in let (t, r) = pop_fl r in
+  let (x, r) = pop_flist r in let (p, r) = pop_flist r in let (pr, _) = pop_prop r in
+  hx (prop_eval fl pr (mode_of m) x p v t)
+
+(* ---- C01: interfaces: iface <plain|safe> <mode> <V> <t> <x list> <p list> nsp nrx S Sd props ---- *)
+let pop_simif r =
+  let (p, r) = pop_flist r in
+  let (nsp, r) = pop_int r in let (nrx, r) = pop_int r in
+  let (s, r) = pop_matrix nsp nrx r in let (sd, r) = pop_matrix nsp nrx r in
+  let (props, r) = pop_n pop_prop nrx r in
+  ({ si_props = props; si_S = s; si_Sd = sd; si_params = p; si_nspecies = nat_of_int nsp }, r)
+
+let cmd_iface toks =
+  let (kind, r) = pop toks in let (m, r) = pop r in let (v, r) = pop_fl r in let (t, r) = pop_fl r in
+  let (x, r) = pop_flist r in let (si, _) = pop_simif r in
+  let out = (if kind = "safe" then compute_safe else compute_plain) fl si (mode_of m) x v t in
+  String.concat " " (List.map hx out)
+
 let () =
   try
     while true do
@@ -48,6 +68,8 @@ let () =
       | cmd :: toks ->
         let res = try (match cmd with
           | "queue" -> cmd_queue toks
+          | "prop" -> cmd_prop toks
+          | "iface" -> cmd_iface toks
           | _ -> "ERR unknown command " ^ cmd)
           with e -> "ERR " ^ Printexc.to_string e in
         print_string (String.trim res); print_newline ()
